@@ -3,10 +3,10 @@
 # Confirms a seeded change independently: demo passes on HEAD, fails with the patch, the repo suite passes with the patch;
 # then runs the quick tier of the property's check and of the extra checks against it (thorough tier of all of them only if
 # every quick run is silent; NO_THOROUGH=1 skips that) and stores everything in /verif/seeded/<prop>-<k>/
-prop=$1; k=$2; src=/tmp/seed/$prop/out/$k
-dst=/verif/seeded/$prop-$k
+prop=$1; k=$2; src=/tmp/seed/$prop/${SEED_OUT:-out}/$k
+dst=/verif/seeded/$prop-${SEED_TAG:-}$k
 [ -f $src/patch.diff ] || { echo "no patch in $src"; exit 2; }
-wt=/tmp/mut/confirm_${prop}_$k
+wt=/tmp/mut/confirm_${SEED_TAG:-}${prop}_$k
 mkdir -p /tmp/mut; git -C /repo worktree add -q --detach $wt HEAD || exit 3
 cd $wt
 PYTHONPATH=$wt /venv/bin/python $src/demo.py > /tmp/mut/demo_${prop}_$k.base 2>&1; rc_base=$?
@@ -38,7 +38,7 @@ mkdir -p $dst; cp $src/patch.diff $src/demo.py $dst/; [ -f $src/notes.md ] && cp
 /venv/bin/python - "$prop" "$k" "$rc_base" "$rc_mut" "$suite" "$caught" "$detail" <<'PY'
 import json, os, sys
 prop, k, rb, rm, suite, caught, detail = sys.argv[1:8]
-d = f'/verif/seeded/{prop}-{k}'
+d = f'/verif/seeded/{prop}-{os.environ.get("SEED_TAG", "")}{k}'
 meta = {
   'breaks_property': prop,
   'needs_to_manifest': open(f'{d}/notes.md').read()[:1800] if os.path.exists(f'{d}/notes.md') else '',
